@@ -266,7 +266,7 @@ theorem safe_eq {α} (xs : List α) (i : Val) (hl : lenOk xs.length) :
 /-- **`!?`**: `s !? i` is `s[i]` for `0 ≤ i < len` and null for every other index object -/
 theorem safeIndex_refines (s i : Val) (hs : seqOk s) :
     Index.accessor2 "!?" s i = PyIndex.accessor2 "!?" s i := by
-  simp only [Index.accessor2, PyIndex.accessor2]
+  simp only [Index.accessor2, PyIndex.accessor2, safeAt]
   cases s with
   | list xs =>
     simp only [safeIndex, safe_eq xs i hs, isStrict, items, if_true]
@@ -378,14 +378,74 @@ theorem accessor2_refines (name : String) (s a : Val) (hs : seqOk s) (hfin : isF
   · subst h1; exact safeIndex_refines s a hs
   by_cases h2 : name = "!%"
   · subst h2; exact cyclicIndex_refines s a hs
+  by_cases h3 : name = "index?"
+  · subst h3; exact safeIndex_refines s a hs
   unfold Index.accessor2 PyIndex.accessor2
   split
   · exact index_refines s a hs hfin
   · exact index_refines s a hs hfin
   · exact absurd rfl h1
+  · exact absurd rfl h3
   · exact absurd rfl h2
   · exact slice_refines s _ _ hs hfin
   · exact slice_refines s _ _ hs hfin
   · split <;> simp_all
+
+/-! ### strings, byte by byte -/
+
+/-- the element of a string at one byte: a one-char string exactly for an ASCII byte (`< 0x80`),
+a one-byte `bytes` value for every other byte (0x80 itself included) -/
+theorem byteItem_eq (b : Nat) : byteItem b = if b < 0x80 then .str [b] else .bytes [b] := by
+  unfold byteItem softFromUtf8
+  by_cases h : b < 0x80
+  · have : validUtf8 [b] = true := validUtf8_ascii [b] (by simp; omega)
+    simp [h, this]
+  · have : validUtf8 [b] = false := by
+      unfold validUtf8
+      simp only [h, if_false]
+      split
+      · rfl
+      · split
+        · rfl
+        · split <;> rfl
+    simp [h, this]
+
+example : byteItem 0x7F = .str [0x7F] ∧ byteItem 0x80 = .bytes [0x80] ∧ byteItem 0xBF = .bytes [0xBF]
+    ∧ byteItem 0xC2 = .bytes [0xC2] ∧ byteItem 0xF4 = .bytes [0xF4] := ⟨rfl, rfl, rfl, rfl, rfl⟩
+
+/-- what `s[i]` is on a string: the byte at `pyIndex len i`, ASCII-or-not decided at `0x80` -/
+theorem str_index_byte (bs : List Nat) (n k : Int) (hl : lenOk bs.length)
+    (hk : pyIndex bs.length n = some k) :
+    ∃ b, bs[k.toNat]? = some b ∧
+      Index.index (.str bs) (.int n) = .ok (if b < 0x80 then .str [b] else .bytes [b]) := by
+  have hr := pyIndex_range hk
+  have hkl : k.toNat < bs.length := by omega
+  refine ⟨bs[k.toNat], List.getElem?_eq_getElem hkl, ?_⟩
+  rw [index_refines (.str bs) _ hl rfl]
+  simp [PyIndex.index, asInt, items, elemOf, hk, hkl, ofOpt, byteItem_eq]
+
+/-- **string index = width-1 slice**: for every string and every index that addresses a position,
+`s[i]` is `s[k:k+1]` for that position `k` (so the two code paths — `weird_string_as_bytes_index`
+and `slice_seq` — must classify every byte value alike) -/
+theorem str_index_eq_unit_slice (bs : List Nat) (n k : Int) (hl : lenOk bs.length)
+    (hk : pyIndex bs.length n = some k) :
+    Index.index (.str bs) (.int n) = Index.slice (.str bs) (some (.int k)) (some (.int (k + 1))) := by
+  have hr := pyIndex_range hk
+  have hkl : k.toNat < bs.length := by omega
+  have hl' := hl
+  unfold lenOk at hl'
+  have i1 : inI64 k := by unfold inI64; omega
+  have i2 : inI64 (k + 1) := by unfold inI64; omega
+  rw [index_refines (.str bs) _ hl rfl, slice_refines (.str bs) _ _ hl rfl]
+  have e : (k + 1 - k).toNat = 1 := by omega
+  have t : (bs.drop k.toNat).take 1 = [bs[k.toNat]] := by
+    simp [List.take_one, List.head?_drop, List.getElem?_eq_getElem hkl]
+  simp [PyIndex.index, PyIndex.slice, asInt, items, elemOf, hk, hkl, ofOpt, bound, i1, i2,
+    sliceOf_nonneg bs k (k + 1) hr.1 (by omega), e, t, byteItem]
+
+/-- … and the builtin accessors `first/second/third/last` (lib.rs `linear_index_isize`, which has
+its own copy of the byte extraction) return the same element as `s[i]` -/
+theorem str_linear_eq_index (bs : List Nat) (k : Int) (hk : inI64 k) :
+    linearIndexIsize (.str bs) k = Index.index (.str bs) (.int k) := linear_is_index _ k hk
 
 end Noulith.C10
